@@ -61,6 +61,9 @@ class Stats:
         self.ops_run = 0
         self.distinct_ops = set()
         self.child_wall = 0.0
+        self.long_runs = 0
+        self.long_ops = 0
+        self.long_pairs = 0
         self.sweep_runs = 0
         self.sweep_functions = set()
         self.lock_yields = 0
@@ -100,6 +103,11 @@ class Stats:
             self.ops_run += len(cl)
             for op in cl:
                 self.distinct_ops.add(O.op_key(op))
+        if spec.get('long'):
+            n = len(spec['clients'][0])
+            self.long_runs += 1
+            self.long_ops += n
+            self.long_pairs += n * (n - 1) // 2
         self.child_wall += res.get('wall', 0)
         self.lock_yields += res.get('lock_yields', 0)
         if len(self.samples) < 3 and sub == 'S1' and res['nswitch'] and (len(self.samples) == 0 or res['fired']):
@@ -279,7 +287,8 @@ def explore(tier, seed, repo, budget_s, stats, found, ref, probes, pool, t_end, 
                 specs.append(gen.gen_s1(base + i1, c, None, instr_frac, sa_frac))
                 i1 += 1
         if i2 < n_s2:
-            specs.append(gen.gen_s2(base + i2, c, None))
+            # short, fully instrumented histories and long ones (pair coverage) alternate
+            specs.append(gen.gen_s2(base + i2, c, None) if i2 % 2 == 0 else gen.gen_s2_long(base + i2, c, None))
             i2 += 1
         if len(specs) >= chunk:
             flush(specs)
@@ -528,6 +537,8 @@ def main(tier='quick', seed=0, repo=None):
             'op_kind_overlap_pairs': sorted('%s|%s' % p for p in stats.kind_pairs),
             'same_function_overlap_distinct_functions': len(stats.overlap),
             'same_function_overlap_named': {n: stats.overlap.get(n, 0) for n in NAMED_PROBES},
+            's2_long_histories': stats.long_runs, 's2_long_ops_executed': stats.long_ops,
+            's2_long_ordered_pairs (earlier op, later op) in one process': stats.long_pairs,
             'focus_sweep_runs': stats.sweep_runs, 'focus_sweep_distinct_functions': len(stats.sweep_functions),
             'lock_yields (client blocked on a lock held by a parked client)': stats.lock_yields,
             'sim_runs_per_hour': int(sim_runs / max(wall, 1e-6) * 3600), 'seeds_per_hour': int(evaluations / max(wall, 1e-6) * 3600),
